@@ -8,7 +8,10 @@ RULE = ("texts through parser.New(text).Advance().ParseFile() in-process: gramma
         "span/line mutations and truncations of those, raw random bytes, invalid UTF-8 placed in every token class, "
         "tokens of 1-64 KiB, hand-written boundary snippets, and every leaf class (date, account, decimal, commodity, "
         "interval, quoted string) and directive keyword in every syntactic position, well-formed and in near-miss "
-        "spellings (C07leaf, deterministic); thorough adds every string of length <= 4 over 12 relevant "
+        "spellings, and every separator position (between the leaves of a booking, a balance line, a price, an @accrue "
+        "line, inside the @performance list, at the line ends inside a directive) spelled with one blank, several, a "
+        "tab, a CR, nothing, a newline, a non-breaking space, a comma, two commas, a leading or trailing comma "
+        "(C07leaf, deterministic); thorough adds every string of length <= 4 over 12 relevant "
         "bytes, every 0-2 byte continuation of 7 directive prefixes, and unicode.IsLetter/IsDigit on every code point. "
         "Compared exactly: the tree of (kind start end) for every node, or the chain of (message kind, start, end) of "
         "every directives.Error.  Non-trivial: the text parses with >= 1 directive, or fails after >= 1 complete "
@@ -98,12 +101,15 @@ def distribution(cases):
 TECHNIQUE = ("Coq proof over a hand-written Gallina model of scanner.go and parser.go (scanner invariant, every primitive "
              "monotone in the offset, ranges [scope start, offset) by construction, induction on loop fuel) + "
              "model/implementation correspondence on generated texts through extraction, with the executable "
-             "specification (wf_tree_b, cover_b, wf_leaves_b, wf_keywords_b, err_in_bounds_b) evaluated on the Go parser's own output; the "
+             "specification (wf_tree_b, cover_b, wf_leaves_b, wf_keywords_b, wf_separators_b, determined_b, err_in_bounds_b) evaluated on the Go parser's own output; the "
              "lexical classes are proved by inversion of the parser (what each successful primitive consumed) and a "
              "decoding lemma from the scanner's rune chunks to the executable regular expressions over runes; the keywords by "
              "the windows of bytes readWhitespace1/ReadAlternative/ReadString consumed plus the first rune each parse "
-             "function accepts")
-LEVEL_TEXT = ("Theorems C07_fuel, C07_err_in_bounds, C07_wf, C07_cover, C07_leaves, C07_keywords (Coq, closed under the global context) state "
+             "function accepts; the separators by the same windows for ReadWhile1/ReadWhile/readRestOfWhitespaceLine, a "
+             "loop invariant for the addon lines (tile_ad_b) and for the @performance list; the summary (every byte "
+             "accounted for) by a proof about the specification alone: the five executable statements imply that the "
+             "pieces of a tree chain from 0 to |t| (determined_of_specs)")
+LEVEL_TEXT = ("Theorems C07_fuel, C07_err_in_bounds, C07_wf, C07_cover, C07_leaves, C07_keywords, C07_separators, C07_text_determined (Coq, closed under the global context) state "
               "for every byte list and every letter/digit classification that the parser model terminates within its fuel, "
               "that every error range lies inside the text, that a returned tree is well-formed (wf_tree_b), that the text "
               "outside the directives is whitespace-only and comment lines (cover_b), so gaps and directives interleave to "
@@ -114,13 +120,23 @@ LEVEL_TEXT = ("Theorems C07_fuel, C07_err_in_bounds, C07_wf, C07_cover, C07_leav
               "alphanumeric (proved of the Unicode tables; refuted without that hypothesis), that the kind of every node "
               "is justified by the text: blanks, the keyword open/close/price/balance and blanks between date and payload, "
               "`include` and blanks before a path, `@performance(`...`)` and `@accrue` blanks for present addons "
-              "(wf_keywords_b). The model is tied to scanner.go/parser.go by running both on the same texts on every "
-              "check, where wf_tree_b, cover_b, wf_leaves_b and wf_keywords_b are also evaluated on the Go parser's own tree.")
+              "(wf_keywords_b). C07_separators adds, under the same hypothesis (refuted without it), the text between "
+              "the leaves (wf_separators_b): blank+ between the leaves of a booking, a balance line, a price and an @accrue "
+              "line; blank* and single commas in the @performance list; blank* newline after the description, every booking, "
+              "every balance line of the multi-line form and every addon; every node starts with its first leaf and ends "
+              "with its last leaf or the rest of its last line. C07_text_determined is the summary: the pieces of the tree "
+              "(gaps, leaves, keyword windows, separators, in source order) follow each other without a hole from 0 to |t|, "
+              "each slice is in the class of its piece, so the text is the concatenation of its pieces; "
+              "C07_specs_determine proves this for ANY tree from the five executable statements, so it holds of the Go "
+              "parser's tree whenever the check's verdict is ok. The model is tied to scanner.go/parser.go by running both "
+              "on the same texts on every check, where wf_tree_b, cover_b, wf_leaves_b, wf_keywords_b, wf_separators_b "
+              "and determined_b are also evaluated on the Go parser's own tree.")
 LEVEL_NOTE = ("Trusted: Coq kernel; extraction and the OCaml driver; the Go harness; that Model/Scanner.v and Model/Parser.v "
               "are scanner.go and parser.go (hand-written, validated by the correspondence: exact equality of all ranges and "
               "error chains on every case). Go runtime panics are sampled, not excluded by proof. The lexical classes are "
               "stated in terms of the parser's own letter/digit predicates (unicode.IsLetter/IsDigit, so a date may consist "
               "of non-ASCII decimal digits: that such a date is rejected later is a matter of the model builder, not of "
-              "the parser); the blanks between the leaves inside a booking, a balance line, a price, an @accrue "
-              "line and the argument list of @performance are not part of the executable statements (only their order and "
-              "nesting, by wf_tree_b).")
+              "the parser). One region of a text is described only loosely: the parser accepts @performance/@accrue lines in "
+              "front of EVERY directive but keeps them only in a transaction; in front of open/close/balance/price/include "
+              "they are inside the directive's range and belong to no node, and the executable statement says of them "
+              "only that they start with `@` and end with a newline (class PDropped of C07_text_determined).")
